@@ -130,10 +130,10 @@ Print Assumptions C08_list_without_comment_is_one_line.
    context/if/while/for/return/include, arrays, dictionaries, destructuring patterns, parameter lists, parenthesized
    expressions, imports with their items, content blocks, strong and emphasised text with their markup bodies,
    equations and the math constructs (math bodies, delimited groups, attachments, roots, fractions, primes), raw
-   elements, references, headings, list/enum/term items - provided no node is written on several source lines and none is a comment or a paragraph break.  Where breaks are
+   elements, references, headings, list/enum/term items, code blocks with at most one statement - provided no node is written on several source lines and none is a comment or a paragraph break.  Where breaks are
    suppressed every request the converters make on such a tree yields an unbreakable document, so it is printed on one
    line at every width: this is the situation of `text #box[#rect(width: 10pt, height: 20pt)] text`.  Partial: code
-   blocks (`{ .. }`, laid out on several lines as soon as they hold two statements) and table calls are outside `rs`. *)
+   blocks with two or more statements (laid out on several lines whatever the width) and table calls are outside `rs`. *)
 Theorem C08_suppressed_sublanguage_one_line_partial :
   forall swidth cfg t r n d n',
     rs t = true -> ufit r t = true -> c_supp (req_ctx r) = true ->
